@@ -109,7 +109,7 @@ class Model:
         return user
 
     def step(self, verb, arg, connect="before", payload=b""):
-        v = verb.lower()
+        v = verb.lower() if verb.isascii() else verb  # only ASCII verbs exist (U+212A KELVIN SIGN lower-cases to 'k')
         prev, self.prev = self.prev, v
         # the restart offset applies only to the transfer command that immediately follows REST
         saved_rest = self.rest if (v in TRANSFER and prev == "rest") else 0
@@ -144,8 +144,11 @@ class Model:
             return dict(codes=["221"], ends=True)
         if v == "rest":
             if arg.isdecimal():
-                self.rest = int(arg)
-                return dict(codes=["350"])
+                try:
+                    self.rest = int(arg)
+                    return dict(codes=["350"])
+                except ValueError:  # an offset too long for int(): a malformed argument like any other
+                    pass
             return dict(codes=["501"])
         if v == "syst":
             return dict(codes=["215"])
